@@ -168,10 +168,12 @@ Proof. induction l as [|x t (n & E & Hn & Hall & Hstop)].
     + exists 0%nat. cbn. split; [reflexivity|]. split; [lia|]. split; [intros y [] | intros y t' Ey; injection Ey as <- <-; exact Ef]. Qed.
 
 Lemma trim_rev_spec rl e out : trim_rev rl e = Ok out ->
-  exists k, out = skipn k rl /\ (k < length rl)%nat /\ junk (firstn k rl) /\
+  exists k, out = skipn k rl /\ (k <= length rl)%nat /\ junk (firstn k rl) /\
             (forall x, In x (firstn k rl) -> le_any x e = false) /\
             (forall p t, out = p :: t -> is_pair p = true \/ le_any p e = true).
-Proof. revert out; induction rl as [|p t IH]; intros out H; [discriminate|]. cbn in H.
+Proof. revert out; induction rl as [|p t IH]; intros out H.
+  { injection H as <-. exists 0%nat. cbn. repeat split; [lia | intros x [] | intros x [] | intros; discriminate]. }
+  cbn in H.
   destruct (negb (is_pair p) && negb (le_any p e)) eqn:E.
   - destruct (IH out H) as (k & -> & Hk & Hj & Hle & Hst). exists (S k). cbn [skipn firstn length]. repeat split; [lia | | | exact Hst].
     + intros x [<-|Hx]; [apply andb_true_iff in E; destruct E as (E & _); apply negb_true_iff in E; exact E | apply Hj; exact Hx].
